@@ -234,3 +234,19 @@ PROPS["C12"] = dict(
     assumptions=["names contain no blanks"],
     rule="bounded: models x units x versions; distinct = distinct (model, unit system, version) triples",
 )
+
+PROPS["C11"] = dict(
+    level="proof",
+    explanation="Frame obligations recomputed from the current source on every run: the attributes assigned anywhere in the simulation code (wntr/sim/*.py, "
+                "wntr/sim/models/*.py and the run / evaluate methods of wntr/network/controls.py; plain and augmented assignments and setattr with a "
+                "literal name) are disjoint from the attributes the real to_dict of each element class reads (traced on real instances); the attribute a "
+                "ControlAction writes is fixed by ControlAction.__init__ (status -> _user_status, setting -> _setting, leak_status -> _leak_status; own "
+                "contract). WaterNetworkModel.reset_initial_values is executed symbolically per element class: every simulation-state attribute returns to "
+                "the value of a freshly loaded model. Bounded: to_dict before/after WNTRSimulator and EpanetSimulator runs, reset + rerun and deepcopy "
+                "reproduce results, on example and control test networks.",
+    trusted_base=["determinism of numpy / scipy (equal inputs give equal results)", RT_TRUST],
+    not_decided=["controls that target a definition attribute directly (pump base_speed / power): the action then rewrites the definition by design; not in the bounded scope",
+                 "EpanetSimulator.run_sim / InpFile.write bodies: no attribute write reaches the model (bounded by the to_dict comparison only)"],
+    assumptions=[],
+    rule="bounded: networks x simulators; distinct = distinct (network, simulator, check) triples",
+)
